@@ -18,7 +18,9 @@ TEXT["C16"] = ("fault_enumeration", "exhaustive enumeration of the documented ci
 TEXT["C14"] = ("exploration", "every name length 0..1024 x four protocol families with sampled contents, ports and payloads, requested through the real client (SOCKS5 / HTTP) with the real server behind a byte-counting link node; oracle = exact (name, port, payload) at the server and target, or nothing sent at all; plus direct round trips of both address codecs with a tail. The property has no schedule or fault dimension; the simulator supplies the observation points (what was dialled, what was put on the wire).", "DESIGN.md 4/C14")
 TEXT["C03"] = ("exploration", "reference-model refinement inside the simulator: an independent implementation of the specifications is the peer of the real client and of the real server on the simulated wire (streams and Shadowsocks datagrams, both directions), strict as a receiver; seeded over credentials, addresses, payload scripts, ciphers, user tables and VMess option masks; plus the sender limits of the stream encoders.", "DESIGN.md 4/C03, appendix B")
 TEXT["C10"] = ("fault_enumeration", "the reference implementation as a hostile peer: all timestamp offsets across both edges of the 30 s (2022 streams and datagrams) and 120 s (VMess) windows, type bytes, replay histories with the simulated clock advanced 0..70 s between the copies, and mis-typed / stale / unbound responses to the real client; accept must equal the reference predicate, with a control handshake after every probe.", "DESIGN.md 4/C10")
+TEXT["C12"] = ("exploration", "everything the real encoders put on the simulated wire over many sessions and writes per run is parsed by the reference decoders, which recover (derived key, nonce) per sealed unit; oracle: all pairs distinct, per-session random values pairwise distinct, packet ids strictly increasing.", "DESIGN.md 4/C12")
 NOTE = {
+ "C12": "trusted base as C03; detects missing / reused draws and counters, not weak randomness",
  "C10": "trusted base as C03 (reference implementation) plus the clock seam (hook H4) and the vendored lru_time_cache clock",
  "C03": "trusted base: the reference implementation (calibrated points listed in the evidence assumptions) and the third-party crypto crates both sides share",
  "C14": "trusted base as C01; contents of names sampled, lengths exhaustive",
